@@ -43,6 +43,15 @@ func TestWriteRegress(t *testing.T) {
 			{Op: OpHeartbeat, Period: 0, Split: &Split{Point: PtWHeartbeat, Target: 0, Nested: []Step{{Op: OpUnsubscribe, Sub: 0}}}},
 			{Op: OpSubscribe, Sub: 2, Conn: 3, Key: 0, HB: true, HBFail: true},
 			{Op: OpHeartbeat, Period: 0, Split: &Split{Point: PtHeartbeat, Target: 2, Nested: []Step{{Op: OpRemoveClient, Conn: 3}}}}}},
+		"C13/join-during-start-failure-broadcast": {Steps: []Step{
+			{Op: OpSubscribe, Sub: 0, Conn: 1, Key: 2, StartMode: StartErr, Split: &Split{Point: PtWFlush, Target: 0, Nested: []Step{
+				{Op: OpSubscribe, Sub: 1, Conn: 2, Key: 2}, {Op: OpSubscribe, Sub: 2, Conn: 3, Key: 0}}}},
+			{Op: OpSubscribe, Sub: 3, Conn: 1, Key: 2}, {Op: OpEvent, Period: 2, N: 1, K: 0},
+			{Op: OpSubscribe, Sub: 4, Conn: 1, Key: 1, Hook: HookFail, Split: &Split{Point: PtWFlush, Target: 4, Nested: []Step{{Op: OpSubscribe, Sub: 5, Conn: 2, Key: 1}}}},
+			{Op: OpSubscribe, Sub: 6, Conn: 1, Key: 3, StartMode: StartBlock}, {Op: OpSubscribe, Sub: 7, Conn: 2, Key: 3},
+			{Op: OpReleaseStart, Period: 4, Err: true, Split: &Split{Point: PtWFlush, Target: 7, Nested: []Step{
+				{Op: OpUnsubscribe, Sub: 6}, {Op: OpSubscribe, Sub: 8, Conn: 3, Key: 3, Hook: HookEmit}}}},
+			{Op: OpSubscribe, Sub: 9, Conn: 3, Key: 3}}},
 		"C12/plain-two-subscribers-filters": {Steps: []Step{
 			{Op: OpSubscribe, Sub: 0, Conn: 1, Key: 0, HB: true}, {Op: OpSubscribe, Sub: 1, Conn: 2, Key: 0, Filter: FIn0, Shape: 1},
 			{Op: OpSubscribe, Sub: 2, Conn: 1, Key: 2, Filter: FNot0, Shape: 2},
